@@ -27,8 +27,8 @@ def umax2INTEGER (v : Nat) : Bytes :=
 /-- the C conversion `(intmax_t)(unsigned long)v` -/
 def toSigned64 (v : Nat) : Int := if v % 2 ^ 64 < 2 ^ 63 then (v % 2 ^ 64 : Nat) else (v % 2 ^ 64 : Nat) - 2 ^ 64
 
-/-- `asn_ulong2INTEGER`: passes the unsigned value through `intmax_t` (finding F2) -/
-def ulong2INTEGER (v : Nat) : Bytes := imax2INTEGER (toSigned64 v)
+/-- `asn_ulong2INTEGER`: delegates to `asn_umax2INTEGER` (since the repair of finding F2) -/
+def ulong2INTEGER (v : Nat) : Bytes := umax2INTEGER v
 
 inductive Conv (α : Type) where
   | ok (v : α)
